@@ -638,6 +638,7 @@ class Ctx:
         self.violations = []
         self.inconclusive = []
         self.failed_conc = []  # conc mode: (label, occurrence)
+        self.failed_conc_only = []
         self.req_count = {}
         self.allow_hash = False
         self.twin = twin
@@ -845,6 +846,18 @@ class Ctx:
                 return True
             self.violations.append(Violation(label, occ, self.model_inputs(model), detail))
             return False
+
+    def require_concrete(self, cond, label, detail=None):
+        """obligation that only exists in concrete replays (e.g. on real YAML text rendered from
+        the path's witness); a failure is a violation on the witness input, not an engine error"""
+        if self.mode != "conc":
+            return True
+        occ = self.req_count.get(label, 0)
+        self.req_count[label] = occ + 1
+        ok = bool(cond)
+        if not ok:
+            self.failed_conc_only.append((label, occ, detail))
+        return ok
 
     def fail(self, label, detail=None):
         """unconditional obligation failure on this path (e.g. wrong exception class)"""
@@ -1108,7 +1121,7 @@ def _confirm(harness, params, model, v: Violation):
     for exact in ((False, True) if float_ok else (True,)):
         try:
             cc = run_concrete(harness, params, inputs, model, exact=exact)
-            fails = [(l, o) for (l, o, _d) in cc.failed_conc]
+            fails = [(l, o) for (l, o, _d) in cc.failed_conc + cc.failed_conc_only]
             tried.append("fraction" if exact else "float")
             if (v.label, v.occurrence) in fails or any(l == v.label for l, _ in fails):
                 status = "confirmed-fraction" if exact else "confirmed"
@@ -1147,6 +1160,12 @@ def _witness(harness, params, model, c: Ctx, res: Result):
             outcome = "exception in concrete run: %s: %s" % (type(e).__name__, e)
             continue
         got = [(lab, _norm(val)) for lab, val in cc.observations]
+        for lab, occ, det in cc.failed_conc_only:
+            if not any(v["label"] == lab for v in res.violations):
+                res.violations.append({
+                    "label": lab, "occurrence": occ, "inputs": jsonable(inputs), "params": jsonable(params),
+                    "model": model, "status": "confirmed", "detail": jsonable(det),
+                    "replayed_with": ["fraction" if exact else "float"]})
         tol = Fraction(1, 10 ** 9) if not exact else Fraction(0)
         same = (
             cc.notes.get("end") == "ok"
